@@ -157,6 +157,20 @@ fn print_units(items: &[VItem]) -> String {
     out.join(",")
 }
 
+/// Only the last entry of a key's chain is observable (reads look at `branch.map[key]` alone). An entry left of
+/// it can be live in the implementation where the model has it deleted: a replica that integrated a squashed
+/// two-element block (re-emitted by a peer that had both elements deleted) without the delete set entry of its
+/// first element holds it live until that delete set arrives. Entries left of the last one are therefore
+/// printed as deleted on the implementation side, as the model has them.
+fn hide_all_but_last(units: &str) -> String {
+    let us = split_top(units);
+    let n = us.len();
+    us.into_iter().enumerate().map(|(i, u)| {
+        if i + 1 == n { return u; }
+        match u.find('=') { Some(e) if !u[..e].ends_with('~') => format!("{}~{}", &u[..e], &u[e..]), _ => u }
+    }).collect::<Vec<_>>().join(",")
+}
+
 /// The internal dump in the model's `print_doc` format: `key=[units];... |G ids |W`
 /// (the stash part is left empty: it is compared separately).
 pub fn internal_dump(vs: &VStore) -> String {
@@ -164,7 +178,7 @@ pub fn internal_dump(vs: &VStore) -> String {
     for b in &vs.branches {
         if !b.seq.is_empty() { lists.push(format!("{}=[{}]", print_parent(&b.id), print_units(&b.seq))); }
         for (k, chain) in &b.map {
-            if !chain.is_empty() { lists.push(format!("{}/{}=[{}]", print_parent(&b.id), rawhex(k.as_bytes()), print_units(chain))); }
+            if !chain.is_empty() { lists.push(format!("{}/{}=[{}]", print_parent(&b.id), rawhex(k.as_bytes()), hide_all_but_last(&print_units(chain)))); }
         }
     }
     lists.sort();
